@@ -166,6 +166,10 @@ func explore(l *loaded, insts []Inst, opt options) ([]*instResult, runStats, err
 	for _, in := range insts {
 		fn, err := l.harness(in.Pkg, in.Fn)
 		if err != nil {
+			if len(droppedHarness) > 0 {
+				missingHarness = append(missingHarness, in.Key())
+				continue
+			}
 			return nil, runStats{}, err
 		}
 		ir := &instResult{Inst: in, fn: fn, ByKind: map[string]int{}, Covers: map[string]int{}}
@@ -368,6 +372,9 @@ func explore(l *loaded, insts []Inst, opt options) ([]*instResult, runStats, err
 	stats.BudgetHit = p.budgetHit
 	return results, stats, firstErr
 }
+
+// missingHarness: instances whose harness was dropped because its file does not compile (inconclusive).
+var missingHarness []string
 
 func mergeStats(mu *sync.Mutex, st *runStats, e *exec.Exec) {
 	mu.Lock()
@@ -778,6 +785,9 @@ func runCheck(prop, tier string, opt options) int {
 	}
 	if budgetNote != "" {
 		inconclusive = append(inconclusive, budgetNote)
+	}
+	if len(missingHarness) > 0 {
+		inconclusive = append(inconclusive, fmt.Sprintf("%d instance(s) not run: harness file(s) %v do not compile against the current tree (in-package harnesses name unexported identifiers); first: %s", len(missingHarness), droppedHarness, missingHarness[0]))
 	}
 	for _, m := range crossMismatch {
 		inconclusive = append(inconclusive, "solver disagreement: "+m)
